@@ -293,7 +293,7 @@ def run_error_rs(facts, rep):
         rep.fail("R12.3a", "From<io::Error>", "present", "anchor missing")
     else:
         calls = [short(b.term.callee()) for b in fio.calls()]
-        ok = "From::from" in calls and not any(s.kind == "assign" and s.rv.kind == "agg" and s.rv.agg.get("adt") == "error::VfsError"
+        ok = ("From::from" in calls or "Into::into" in calls) and not any(s.kind == "assign" and s.rv.kind == "agg" and s.rv.agg.get("adt") == "error::VfsError"
                                                for blk in fio.blocks for s in blk.stmts)
         rep.ob("R12.3a", fio.id, "delegates to From<VfsErrorKind>", ok, "calls %s" % calls, fio.span)
     # R12.3b field footprint
